@@ -11,7 +11,9 @@ W5 == [owner |-> [j \in Jobs |-> IF j = "a" THEN "p1" ELSE "p2"], req |-> [j \in
 W6 == [owner |-> [j \in Jobs |-> "p1"], req |-> [j \in Jobs |-> 1], total |-> 1, totals |-> {}, resub |-> {}, late |-> {}]
 (* p2 starts when the job of p1 has been holding the token for a while, possibly after it ended *)
 W7 == [owner |-> [j \in Jobs |-> IF j = "a" THEN "p1" ELSE "p2"], req |-> [j \in Jobs |-> 1], total |-> 1, totals |-> {}, resub |-> {}, late |-> {"p2"}]
-MCInit == InitWith(IF Variant = "latestart" THEN W7 ELSE IF Variant = "raced" THEN W6 ELSE IF Variant = "resubmit" THEN W5 ELSE IF Variant = "two" THEN W2 ELSE IF Variant = "retotal" THEN W4 ELSE W3)
+(* ... and the job of p1 may come back once under the same token file name *)
+W8 == [owner |-> [j \in Jobs |-> IF j = "a" THEN "p1" ELSE "p2"], req |-> [j \in Jobs |-> 1], total |-> 1, totals |-> {}, resub |-> {1}, late |-> {"p2"}]
+MCInit == InitWith(IF Variant = "latestart_resub" THEN W8 ELSE IF Variant = "latestart" THEN W7 ELSE IF Variant = "raced" THEN W6 ELSE IF Variant = "resubmit" THEN W5 ELSE IF Variant = "two" THEN W2 ELSE IF Variant = "retotal" THEN W4 ELSE W3)
 MCSpec == MCInit /\ [][Next]_vars
 (* one scheduler death at most, to keep the model small *)
 OneDeath == Cardinality({p \in Procs : ~alive[p] /\ info.started[p] # "no"}) <= 1
